@@ -152,11 +152,20 @@ Proof.
       rewrite E. unfold KDUMP_ERR_ADDRXLAT in Hb.
       assert (Hd : (0 <=? - s) && (- s <=? 9) = true) by (rewrite andb_true_iff, !Z.leb_le; lia).
       rewrite Hd. destruct (Z.eqb_spec (- s) KDUMP_OK) as [E0|_]; [unfold KDUMP_OK in E0; lia|reflexivity].
-    + destruct (Z.eqb_spec s ADDRXLAT_ERR_NODATA) as [->|_]; reflexivity.
-  - destruct (Z.eqb_spec s ADDRXLAT_ERR_NODATA) as [->|_]; reflexivity.
+    + destruct (Z.eqb_spec s ADDRXLAT_ERR_NODATA) as [->|_]; [reflexivity|].
+      destruct (Z.eqb_spec s ADDRXLAT_ERR_NOMEM) as [->|_]; reflexivity.
+  - destruct (Z.eqb_spec s ADDRXLAT_ERR_NODATA) as [->|_]; [reflexivity|].
+    destruct (Z.eqb_spec s ADDRXLAT_ERR_NOMEM) as [->|_]; reflexivity.
 Qed.
 
 (** the unbounded mapping lets a foreign custom status out as an undocumented one *)
 Lemma a2k_unbounded_undocumented :
   addrxlat_doc (-100) = true /\ kdump_doc (fst (addrxlat2kdump_gen false (-100))) = false.
 Proof. split; reflexivity. Qed.
+
+(** fixes/108: running out of memory inside the translation is a system error,
+    not "the translation is unusable" (which some callers tolerate) *)
+Lemma a2k_nomem_is_system :
+  addrxlat2kdump ADDRXLAT_ERR_NOMEM = (KDUMP_ERR_SYSTEM, true) /\
+  fst (addrxlat2kdump_gen true ADDRXLAT_ERR_NOMEM) <> KDUMP_ERR_ADDRXLAT.
+Proof. split; [reflexivity | vm_compute; discriminate]. Qed.
